@@ -9,7 +9,7 @@ From Coq Require Import List NArith ZArith Bool Sorted.
 Import ListNotations.
 Require Import Verif.Lib.Wire Verif.Lib.C04Sort Verif.Gen.Facts_C04 Verif.Model.C04 Verif.Model.C04_entry Verif.Model.C04_err Verif.Gen.Exec_C04.
 Require Import Verif.Proofs.C04 Verif.Proofs.C04_flat Verif.Proofs.C04_decide Verif.Proofs.C04_safe Verif.Proofs.C04_groups Verif.Proofs.C04_spec Verif.Proofs.C04_mono Verif.Proofs.C04_one Verif.Proofs.C04_defer Verif.Proofs.C04_step Verif.Proofs.C04_all Verif.Proofs.C04_order Verif.Proofs.C04_gen Verif.Proofs.C04_late Verif.Proofs.C04_entry Verif.Proofs.C04_pos Verif.Proofs.C04_err Verif.Proofs.C04_text.
-Require Import Verif.Proofs.C04_sim Verif.Proofs.C04_sim2.
+Require Import Verif.Proofs.C04_sim Verif.Proofs.C04_sim2 Verif.Proofs.C04_sim3.
 
 (* ---- the control flow of ActionState.execute_actions and of ActionConfiguratorMixin.action is REGENERATED from the
    source on every run (harness/c04/translate.py -> Gen/Exec_C04.v); it equals the hand-written model *)
@@ -538,3 +538,28 @@ Theorem C04_mark_group_elementwise : forall grp l,
   mark_group grp l = map (fun b => if in_group grp b then force b else b) l.
 Proof. exact mark_group_map. Qed.
 Print Assumptions C04_mark_group_elementwise.
+
+(* DEFERRED DISCRIMINATORS ARE RESOLVED WHEN THEIR PHASE IS REACHED -- the step that follows a (re-)declaration, in the
+   specification's vocabulary and on the pool itself: before handing out [a] the generator forces exactly the
+   still-deferred pending actions of phase <= phase of [a] ([upto]), phase by phase and in declaration order within a
+   phase ([phase_sorted]: a permutation of the pool, sorted by phase -- C04_phase_sorted_is_the_pool_by_phase) *)
+Theorem C04_restart_step_forces : forall st new a st2 g2 e,
+  Forall Pact (remaining st) -> Forall Pact new ->
+  gen_next cfg_current (fst (restart st new)) (snd (restart st new)) = SYield a st2 g2 e ->
+  e = forces_of (upto (ordkey a) (phase_sorted (start st) (remaining st ++ new))).
+Proof. exact (restart_step_forces cfg_current). Qed.
+Print Assumptions C04_restart_step_forces.
+
+Theorem C04_phase_sorted_is_the_pool_by_phase : forall s pool,
+  Coq.Sorting.Permutation.Permutation (phase_sorted s pool) pool /\
+  StronglySorted (fun a b => (ordkey a <= ordkey b)%Z) (phase_sorted s pool).
+Proof. exact (fun s pool => conj (phase_sorted_perm s pool) (phase_sorted_sorted s pool)). Qed.
+Print Assumptions C04_phase_sorted_is_the_pool_by_phase.
+
+Example C04_restart_step_forces_nonvacuous :
+  let st := {| resolved := []; remaining := [mkA 0 (Defer None) [] (Some 5%Z) []]; min_order := None; start := 0%N |} in
+  let new := [mkA 1 (Defer (Some 7%N)) [] (Some 0%Z) []; mkA 2 (Defer None) [] (Some 0%Z) []] in
+  (exists a st2 g2, gen_next cfg_fixed (fst (restart st new)) (snd (restart st new)) = SYield a st2 g2 [Force 1%N; Force 2%N]
+                    /\ ordkey a = 0%Z) /\
+  forces_of (upto 0 (phase_sorted 0 (remaining st ++ new))) = [Force 1%N; Force 2%N].
+Proof. exact restart_step_forces_witness. Qed.
